@@ -99,6 +99,7 @@ class Engine:
         self._axioms_done = set()
         self.obligations: list[Obligation] = []
         self.func: FuncInfo = repo.func(contract.qualname)
+        self.check_undecorated(self.func)
         self.field_types: dict[tuple, Ty] = {}
         self.initial: State | None = None
         self.paths = 0
@@ -112,6 +113,17 @@ class Engine:
             self.field_types[tuple(p.split("."))] = ty
 
     # ------------------------------------------------------------------ utilities
+    ALLOWED_DECORATORS = {"staticmethod", "classmethod"}
+
+    def check_undecorated(self, fi: FuncInfo):
+        """The verified text is the function body: a decorator (cache, wrapper, ...) would make the code that
+        runs differ from it, so a decorated function no longer binds to its contract."""
+        decs = [ast.unparse(d) for d in fi.node.decorator_list]
+        bad = [d for d in decs if d not in self.ALLOWED_DECORATORS]
+        if bad:
+            raise SourceError(f"{fi.qualname} is now decorated with {bad}: the contract was written for the bare "
+                              f"function body")
+
     def _check_loops(self):
         loops = self.func.loops()
         for k, spec in self.c.loops.items():
@@ -399,7 +411,50 @@ class Engine:
         return self._opaque_comp(node, st, spec)
 
     def e_SetComp(self, node, st, spec):
+        """{x for x in S if cond(x)} over a set S: the subset of S satisfying cond."""
+        if len(node.generators) == 1 and isinstance(node.generators[0].target, ast.Name) \
+                and isinstance(node.elt, ast.Name) and node.elt.id == node.generators[0].target.id:
+            gen = node.generators[0]
+            S = self.eval(gen.iter, st, spec)
+            if isinstance(S, V) and isinstance(S.ty, TSet):
+                d = self.decls
+                es = sort_of(S.ty.elem, d)
+                x = smt.BoundVar("q_sc", es)
+                saved = st.env.get(gen.target.id)
+                st.env[gen.target.id] = V(S.ty.elem, x)
+                conds = [truthy(self, self.eval(c, st, True)) for c in gen.ifs]
+                if saved is None:
+                    st.env.pop(gen.target.id, None)
+                else:
+                    st.env[gen.target.id] = saved
+                res = d.fresh("setcomp", S.t.sort)
+                st.assume(smt.Forall([x], Eq(smt.Select(res, x), And(smt.Select(S.t, x), *conds))))
+                return V(S.ty, res)
         return self._opaque_comp(node, st, spec)
+
+    def quantified_any_all(self, node: ast.Call, st, spec):
+        """any/all over a generator expression ranging over a set or a sequence: a quantified formula."""
+        gen_exp = node.args[0]
+        gen = gen_exp.generators[0]
+        S = self.eval(gen.iter, st, spec)
+        d = self.decls
+        is_any = node.func.id == "any"
+        if isinstance(S, V) and isinstance(S.ty, TSet) and isinstance(gen.target, ast.Name):
+            x = smt.BoundVar("q_" + gen.target.id, sort_of(S.ty.elem, d))
+            saved = st.env.get(gen.target.id)
+            st.env[gen.target.id] = V(S.ty.elem, x)
+            body = And(*[truthy(self, self.eval(c, st, True)) for c in gen.ifs],
+                       truthy(self, self.eval(gen_exp.elt, st, True))) if is_any else \
+                Implies(And(*[truthy(self, self.eval(c, st, True)) for c in gen.ifs]),
+                        truthy(self, self.eval(gen_exp.elt, st, True)))
+            if saved is None:
+                st.env.pop(gen.target.id, None)
+            else:
+                st.env[gen.target.id] = saved
+            if is_any:
+                return V(BOOL, smt.Exists([x], And(smt.Select(S.t, x), body)))
+            return V(BOOL, smt.Forall([x], Implies(smt.Select(S.t, x), body)))
+        return None
 
     def e_Lambda(self, node, st, spec):
         return FnV("lambda", node=node, env=dict(st.env))
@@ -431,6 +486,11 @@ class Engine:
             # logging: never raises, no effect visible to any contract (DESIGN 2.3); arguments are not
             # evaluated because formatting is lazy in the logging module
             return NoneV()
+        if isinstance(node.func, ast.Name) and node.func.id in ("any", "all") and len(node.args) == 1 \
+                and isinstance(node.args[0], ast.GeneratorExp) and len(node.args[0].generators) == 1:
+            q = self.quantified_any_all(node, st, spec)
+            if q is not None:
+                return q
         how = self.c.calls.get(txt)
         if how is not None and not spec:
             args = [self.eval(a, st, spec) for a in node.args]
